@@ -1,0 +1,86 @@
+package language
+
+import "strings"
+
+// IsKeyCondition reports whether the parsed expression has the only form DynamoDB accepts as the key
+// condition of a Query: an equality test on the partition key, optionally joined by AND with one
+// condition on the sort key (=, <, <=, >, >=, BETWEEN or begins_with)
+func IsKeyCondition(ce *ConditionalExpression, aliases map[string]string, partitionKey, sortKey string) bool {
+	if ce == nil {
+		return false
+	}
+
+	kc := keyCondition{aliases: aliases}
+
+	root, ok := ce.Expression.(*InfixExpression)
+	if !ok {
+		return false
+	}
+
+	if root.Token.Type != AND {
+		return kc.compares(root, partitionKey, EQ)
+	}
+
+	if sortKey == "" {
+		return false
+	}
+
+	return kc.compares(root.Left, partitionKey, EQ) && kc.isSortKeyCondition(root.Right, sortKey) ||
+		kc.isSortKeyCondition(root.Left, sortKey) && kc.compares(root.Right, partitionKey, EQ)
+}
+
+type keyCondition struct {
+	aliases map[string]string
+}
+
+func (kc keyCondition) isAttribute(e Expression, name string) bool {
+	id, ok := e.(*Identifier)
+	if !ok || strings.HasPrefix(id.Value, ":") {
+		return false
+	}
+
+	if alias, ok := kc.aliases[id.Value]; ok {
+		return alias == name
+	}
+
+	return id.Value == name
+}
+
+func isValuePlaceholder(e Expression) bool {
+	id, ok := e.(*Identifier)
+
+	return ok && strings.HasPrefix(id.Value, ":")
+}
+
+// compares tells whether e is "<name> <comparator> :value", in either order, for one of the comparators
+func (kc keyCondition) compares(e Expression, name string, comparators ...TokenType) bool {
+	infix, ok := e.(*InfixExpression)
+	if !ok {
+		return false
+	}
+
+	for _, comparator := range comparators {
+		if infix.Token.Type == comparator {
+			return kc.isAttribute(infix.Left, name) && isValuePlaceholder(infix.Right) ||
+				isValuePlaceholder(infix.Left) && kc.isAttribute(infix.Right, name)
+		}
+	}
+
+	return false
+}
+
+func (kc keyCondition) isSortKeyCondition(e Expression, sortKey string) bool {
+	switch cond := e.(type) {
+	case *InfixExpression:
+		return kc.compares(cond, sortKey, EQ, LT, GT, LTE, GTE)
+	case *BetweenExpression:
+		return kc.isAttribute(cond.Left, sortKey) && isValuePlaceholder(cond.Range[0]) && isValuePlaceholder(cond.Range[1])
+	case *CallExpression:
+		fn, ok := cond.Function.(*Identifier)
+
+		return ok && fn.Value == "begins_with" && len(cond.Arguments) == 2 &&
+			kc.isAttribute(cond.Arguments[0], sortKey) && isValuePlaceholder(cond.Arguments[1])
+	}
+
+	return false
+}
